@@ -26,6 +26,9 @@ pub enum Ty {
     /// signed integer (pass-through only: `iN::from_le_bytes`, copies); Lean `Int`
     #[allow(dead_code)]
     SInt(u32),
+    /// `BTreeMap<K, V>` / `HashMap<K, V>` with an unsigned integer key: association list sorted by key; the flag says
+    /// "HashMap" (iteration is then rejected)
+    Map(Box<Ty>, Box<Ty>, bool),
     /// `std::time::Duration` (nanoseconds as `Nat`; comparison and copy only)
     Dur,
     /// translated struct / enum (simple Rust name)
@@ -48,6 +51,7 @@ impl Ty {
         match self {
             Ty::Unknown => true,
             Ty::List(t, _) | Ty::Opt(t) => t.has_unknown(),
+            Ty::Map(k, v, _) => k.has_unknown() || v.has_unknown(),
             Ty::Res(a, b) => a.has_unknown() || b.has_unknown(),
             Ty::Tuple(v) => v.iter().any(|t| t.has_unknown()),
             _ => false,
